@@ -11,7 +11,7 @@ import pyref
 FAMILY = "cpc"
 CORR = "Cpc"               # Coq module DS.Corr.Cpc
 FAMNUM = 7
-ORACLES = {"prop_ok": 0, "union_ok": 1, "extremes_ok": 2, "layout_ok": 3}
+ORACLES = {"prop_ok": 0, "union_ok": 1, "extremes_ok": 2, "layout_ok": 3, "malformed_ok": 4}
 GEN_MODULES = [("GenCpc",
                 ["cpc/mod.rs", "cpc/sketch.rs", "cpc/pair_table.rs", "cpc/kxp_byte_lookup.rs", "common/inv_pow2_table.rs"],
                 ["MIN_LG_K", "MAX_LG_K", "KXP_BYTE_TABLE", "INVERSE_POWERS_OF_2",
@@ -36,7 +36,7 @@ GEN_MODULES = [("GenCpc",
                 {"cpc/union.rs": ["to_sketch", "reduce_k", "or_window_into_matrix", "or_table_into_matrix",
                                   "or_matrix_into_matrix", "walk_table_updating_sketch"]})]
 OPNAMES = {0: "new", 1: "update", 2: "row_col", 3: "dump", 4: "validate", 5: "matrix", 6: "flavor_of", 7: "offset_of",
-           8: "estimate", 9: "phase_of", 18: "roundtrip", 19: "ser", 17: "sk_ser", 30: "big", 10: "sk_new", 11: "sk_rc", 12: "sk_item", 13: "sk_dump", 14: "sk_validate", 15: "sk_matrix",
+           8: "estimate", 9: "phase_of", 18: "roundtrip", 19: "ser", 17: "sk_ser", 30: "big", 40: "deser", 41: "mut_deser", 10: "sk_new", 11: "sk_rc", 12: "sk_item", 13: "sk_dump", 14: "sk_validate", 15: "sk_matrix",
            16: "sk_roundtrip", 20: "un_new", 21: "un_update", 22: "un_state", 23: "un_result"}
 U32MAX = 2**32 - 1
 
@@ -552,7 +552,70 @@ def gen_codec(rng, tier, n):
     return [gen_case(rng, i, tier, kind, lgk, codec=True) for i, (kind, lgk) in enumerate(p)]
 
 
+# ------------------------------------------------------------------------------------------------
+# C14 (CPC part): malformed images (focus="malformed")
+def mutations(rng, count):
+    """recipes [kind, pos, val] applied by the harness to the current sketch's own image"""
+    out = []
+    for _ in range(count):
+        kind = rng.choice([0, 0, 1, 1, 2, 3, 3, 4, 5])
+        pos = rng.choice([rng.randrange(0, 48), rng.randrange(0, 48), rng.randrange(0, 1 << 16)])
+        if kind == 3:
+            pos = rng.choice([2, 2, 3, 3, 4, 5, 8, 9, rng.randrange(0, 64)])
+            val = rng.choice([0, 1, 2, 3, 0xffffffff, 0x80000000, 1 << 27, 7600, 950, 60 << 10, rng.getrandbits(32),
+                              rng.randrange(0, 4096)])
+        elif kind == 1:
+            val = rng.choice([0, 1, 2, 4, 16, 26, 27, 63, 64, 127, 128, 255, rng.randrange(256)])
+        else:
+            val = rng.getrandbits(16)
+        out.append((41, [kind, pos, val]))
+    return out
+
+
+def gen_malformed_case(rng, cid, tier, kind, lgk):
+    c = gen_case(rng, cid, tier, kind, lgk)
+    ops = []
+    per = 12 if tier == "quick" else 40
+    for (code, a) in c.ops:
+        if code in (6, 7):
+            continue
+        ops.append((code, a))
+        if code == 3:                      # at every observation point: mutate the current image
+            ops += mutations(rng, per)
+    ops += mutations(rng, 3 * per)
+    return Case(cid, c.cfg, ops, tag="cpc-malformed-%s-lg%d" % (kind, lgk))
+
+
+def gen_malformed(rng, tier, n):
+    cases = []
+    plan_m = [("colfill", 4), ("colfill", 5), ("fullcols", 4), ("fullcols", 6), ("hashed", 4), ("hashed", 6), ("hashed", 8),
+              ("hashed", 10), ("random", 5), ("random", 7), ("random", 9), ("rtl", 4), ("rtl", 6), ("colfill", 8), ("hashed", 12)]
+    if tier != "quick":
+        plan_m = plan_m * 4
+    for kind, lgk in plan_m:
+        cases.append(gen_malformed_case(rng, len(cases), tier, kind, lgk))
+    # raw byte strings: random, and hand-made headers with every flag combination and short lengths
+    ops = []
+    for _ in range(150 if tier == "quick" else 1500):
+        ln = rng.choice([0, 1, 7, 8, 9, 12, 16, 20, 24, 40, rng.randrange(0, 80)])
+        b = [rng.randrange(256) for _ in range(ln)]
+        if ln >= 8 and rng.random() < 0.8:
+            b[0] = rng.choice([2, 4, 6, 8, 10, rng.randrange(256)]); b[1] = 1; b[2] = 16
+            b[3] = rng.choice([4, 5, 10, 12, 26, 27, 3]); b[4] = rng.choice([0, 0, 1, 63, 64]); b[5] = 2 | (rng.randrange(8) << 2)
+            sh = pyref.seed_hash(9001); b[6] = sh & 255; b[7] = sh >> 8
+            if ln >= 12 and rng.random() < 0.7:
+                c = rng.choice([0, 1, 2, 5, 100, 1 << 20, 0xffffffff])
+                b[8:12] = [(c >> (8 * i)) & 255 for i in range(4)]
+        ops.append((40, b))
+    cases.append(Case(len(cases), [4, 9001], ops, tag="cpc-malformed-raw"))
+    if n is not None:
+        cases = cases[:n]
+    return cases
+
+
 def gen(rng, tier, n=None, focus=None):
+    if focus == "malformed":
+        return gen_malformed(rng, tier, n)
     if focus == "codec":
         return gen_codec(rng, tier, n)
     if focus == "union":
@@ -572,7 +635,7 @@ def gen(rng, tier, n=None, focus=None):
 def nontrivial(case, obs):
     """C05: at least two distinct pairs were offered and the state was observed at least once;
     C06: at least two union updates and one result were taken"""
-    if any(c in (9, 30) for (c, a) in case.ops):
+    if any(c in (9, 30, 40, 41) for (c, a) in case.ops):
         return True
     if any(c == 20 for (c, a) in case.ops):
         return sum(1 for (c, a) in case.ops if c == 21) >= 2 and any(c == 23 for (c, a) in case.ops)
